@@ -157,6 +157,7 @@ def make_h(tier):
             missing, extra = b - g, g - b
             all_same = all_same and not missing and not extra
             ctx.note("n_extra_is_zero", not extra)
+            ctx.note("missing_exts", ",".join(sorted({os.path.splitext(k[1])[1] for k in missing})))
             ctx.require("location-independent:" + lint, not missing and not extra,
                         missing=[list(k)[:3] for k in list(missing)[:3]], extra=[list(k)[:3] for k in list(extra)[:3]],
                         n_missing=sum(missing.values()), n_extra=sum(extra.values()))
